@@ -10,7 +10,8 @@ Open Scope Q_scope.
 (* ---------- exceptions ---------- *)
 Inductive exn : Set :=
 | ValueError | TypeError | KeyError | IndexError | AssertionError
-| ZeroDivisionError | RuntimeError | NotImplementedError | UnboundLocalError.
+| ZeroDivisionError | RuntimeError | NotImplementedError | UnboundLocalError
+| BadDraw.   (* not a Python exception: the oracle value given for a random draw is outside the RNG's range *)
 
 Inductive res (A : Type) : Type :=
 | Ok (a : A)
